@@ -4,7 +4,7 @@
    it on the tree materialised from the store.  [levels d ts] is the specification: the roots
    of the forest ts, then their children, ... for d further levels (breadth-first order). *)
 From Coq Require Import List Arith.
-From NixV Require Import Pure.Bfs Proofs.BfsProofs.
+From NixV Require Import Pure.Bfs Proofs.BfsProofs Proofs.BfsProofs2.
 Import ListNotations.
 
 (* Section.find_sections / Source.find_sources: the entity itself (depth 0) and everything down
@@ -31,3 +31,19 @@ Theorem c13_queue_is_level_order : forall (A : Type) d limit l (ts : list (tree 
   l + d = limit -> fsize ts <= fuel -> bfs fuel limit (tag l ts) = levels d ts.
 Proof. exact bfs_levels. Qed.
 Print Assumptions c13_queue_is_level_order.
+
+(* raising the limit only appends: what a smaller limit found stays, in place, at the front *)
+Theorem c13_larger_limit_extends : forall (A : Type) (t : tree A) limit limit' filt, limit <= limit' ->
+  exists more, find true t limit' filt = find true t limit filt ++ more.
+Proof. exact find_entity_prefix. Qed.
+Print Assumptions c13_larger_limit_extends.
+
+(* limit 0 from an entity: the entity alone (if it passes the filter) *)
+Theorem c13_limit_zero_entity : forall (A : Type) (t : tree A) filt, find true t 0 filt = filter filt [root t].
+Proof. exact find_entity_limit0. Qed.
+Print Assumptions c13_limit_zero_entity.
+
+(* nothing is found twice or invented: never more results than the subtree has nodes *)
+Theorem c13_result_bounded : forall (A : Type) (t : tree A) limit filt, length (find true t limit filt) <= size t.
+Proof. exact find_length. Qed.
+Print Assumptions c13_result_bounded.
